@@ -1,31 +1,14 @@
 import CanvasProofs.Lemmas.C05
 
-/-! # Prepared for the repair corpus/C05/fix-dashstart-negative-offset.diff (NOT imported yet)
+/-! # dashStart after the repair 8d5b47c (negative offsets reduced modulo the period)
 
-Model of the repaired `dashStart` — a negative offset is first moved into the first period with
-`math.Mod` (+ one period when the remainder is negative), then the unchanged loop runs and
-`pos0 = -offset` — and the full-strength start invariant for ALL offsets. `fmod` is a parameter: in
-the driver it will be the exact float remainder, in the theorem only its defining property is used
-(`fmod x P = x + q·P` for some whole `q`, and `-P < fmod x P ≤ 0` for `x < 0`).
-
-When the patch is committed: move `dashStartR` into `CanvasModel/C05.lean` as `dashStart` (with the
-float `fmod` in `Drv/C05.lean`), replace `C05.start_invariant_partial` by `start_invariant` below,
-and delete `start_invariant_statement` / `start_negative_beyond_period_witness`. -/
+Full-strength start invariant of `Canvas.C05.dashStart` for ALL offsets. `fmod` (`math.Mod`) is a
+parameter: only its defining property `FmodSpec` is used (`fmod x P = x + q·P` for some whole `q`,
+and `-P < fmod x P ≤ 0` for `x < 0`); the driver plugs in the exact float remainder. -/
 set_option linter.unusedSectionVars false
 namespace C05L
 open Canvas.C05
 variable {K : Type} [Field K] [LinearOrder K] [IsStrictOrderedRing K]
-
-/-- the offset the loop of the repaired `dashStart` starts from -/
-def reducedOffset (fmod : K → K → K) (offset : K) (d : List K) : K :=
-  if offset < 0 then
-    (if fmod offset (total d) < 0 then fmod offset (total d) + total d else fmod offset (total d))
-  else offset
-
-def dashStartR (fmod : K → K → K) (fuel : Nat) (offset : K) (d : List K) : Option (Nat × K) :=
-  match dashStartLoop d fuel 0 (reducedOffset fmod offset d) with
-  | none => none
-  | some (i0, off) => some (i0, -off)
 
 /-- what the theorem needs of `math.Mod(x, P)` for `x < 0 < P` -/
 def FmodSpec (fmod : K → K → K) (d : List K) : Prop :=
@@ -59,13 +42,13 @@ inside it (`-pos0 < d[i0]`), and `offset + pos0` is the start phase of a piece `
 theorem start_invariant (fmod : K → K → K) (d : List K) (hne : d ≠ []) (hnn : ∀ x ∈ d, 0 ≤ x)
     (hmod : FmodSpec fmod d)
     (fuel : Nat) (offset : K) (i0 : Nat) (pos0 : K)
-    (h : dashStartR fmod fuel offset d = some (i0, pos0)) :
+    (h : dashStart fmod fuel offset d = some (i0, pos0)) :
     pos0 ≤ 0 ∧ i0 < d.length ∧
       ∃ J m : Nat, J % d.length = i0 ∧ -pos0 < cyc d J ∧
         offset + pos0 + pre d (m * d.length) = pre d J ∧ (0 ≤ offset → m = 0) := by
   have hl : 0 < d.length := List.length_pos_iff.mpr hne
   obtain ⟨m, e, h0, hm⟩ := reducedOffset_spec fmod d hmod offset
-  unfold dashStartR at h
+  unfold dashStart at h
   cases hloop : dashStartLoop d fuel 0 (reducedOffset fmod offset d) with
   | none => rw [hloop] at h; simp at h
   | some r =>
